@@ -570,6 +570,12 @@ func init() {
 			c := derivTwinKeys(tr)
 			one(&c)
 		}
+		// a backslash where the other identity has a delimiter: two identities, two keys, two scopes
+		n = ctx.N(120, 3000)
+		for i := 0; i < n; i++ {
+			c := derivNearDelims(tr, i)
+			one(&c)
+		}
 		// identities keep their own scope also through obtain / Close / obtain-again cycles racing
 		// report passes and each other (schedule-controlled registry scenarios, direct predicate)
 		regCrossStream(ctx, ctx.N(150, 3000), "equal_identities_share_one_scope_distinct_never_merge")
